@@ -1,4 +1,28 @@
-import StreamzVerif.Model.Graph
-namespace StreamzVerif.Graph
-theorem placeholder_C02 : True := trivial
-end StreamzVerif.Graph
+import StreamzVerif.Props.C13
+import StreamzVerif.Props.AsyncWindows
+import StreamzVerif.Props.AsyncZip
+import StreamzVerif.Props.C01Compose
+/-!
+# C02 — asynchronous timing never changes what lossless pipelines deliver (index module)
+
+C02 is decided per lossless asynchronous node kind, for every interleaving of arrivals, consumer
+completions, job completions and timer expirations, and composed through C01's edge consistency
+(`Props/C01.lean: edge_consistency`, `Props/C01Compose.lean: chain_sem`): what arrives at a node is
+exactly what its upstream emitted, in order, so a pipeline's delivery is the composition of its nodes'.
+
+The audited theorems serving C02 (`./check C02` audits exactly these):
+* rate_limit, delay — `Props/C13.lean`: `rate_limit_plan_in_arrival_order`, `rate_limit_loop_order`,
+  `rate_limit_loop_none_lost`, `delay_loop_prefix`, `delay_loop_none_lost`, `delay_plan_order_count`;
+* timed_window, partition with timeout — `Props/AsyncWindows.lean`: `c02_window_lossless`,
+  `c02_window_drains`, `c02_partition_lossless` (batches' concatenation is a prefix of the inputs,
+  equal at quiescence; per key for a keyed partition);
+* zip (any arity, with maxsize) — `Props/AsyncZip.lean`: `c02_zip_transpose`,
+  `c02_zip_interleaving_independent`;
+* buffer, map_async (any parallelism, any completion order) — `Props/AsyncBuffer.lean`: `c02_buffer_*`,
+  `c02_map_async_order`;
+* union and every synchronous kind — C01 (`Props/C01Sem.lean`).
+
+"Native coroutines as well as Tornado futures as consumers" is not a theorem: the models have one
+notion of awaitable; that all three flavours behave like it is a correspondence obligation (every
+generated pipeline runs with each flavour).
+-/
